@@ -835,3 +835,23 @@ def r_finalise_async(ctx):
     if "async" not in ctx.facts.features:
         return [Ob("R-FINALISE", "<crate>", "async feature off", True, "config without the async feature: no async encoders")]
     return [o for o in r_finalise(ctx) if o.site.startswith("async encoder") or o.fn.startswith("<")]
+
+
+
+def r_meta0_twins(ctx):
+    """C12 only: the sync and the async opener treat the metadata section alike.  R-META0 (C03/C20) judges each opener on its own; for the
+    equivalence of the two APIs what matters is that they get the *same* verdicts — hand-written metadata helpers may differ in shape, so the
+    template comparison does not cover them, and the skeleton of R-TWIN-HAND does not look into branch conditions."""
+    import rules_reader as rr
+    obs0 = rr.r_meta0(ctx)
+    by = {}
+    for o in obs0:
+        by.setdefault(o.fn, set()).add((o.site, o.ok))
+    out = []
+    for sfn, afn in twin_pairs(ctx):
+        if sfn["path"] in by or afn["path"] in by:
+            a, b = by.get(sfn["path"], set()), by.get(afn["path"], set())
+            diff = sorted(x[0] for x in a ^ b)
+            out.append(Ob("R-META0", afn["path"], "sync and async openers treat the metadata section alike", a == b,
+                          "verdicts differ on: %s" % "; ".join(diff) if diff else "same verdicts on %d obligations" % len(a), rel(afn["loc"]), only=("C12",)))
+    return out
